@@ -3,7 +3,10 @@ use crate::runner::Tier;
 pub mod c01;
 pub mod c02;
 pub mod c03;
+pub mod c04;
 pub mod c05;
+pub mod c09;
+pub mod history;
 
 pub struct Ctx {
     pub tier: Tier,
@@ -36,7 +39,9 @@ pub fn dispatch(prop: &str, tier: Tier, seed: u64, only: Option<usize>, args: &[
         "C01" => c01::run(&ctx),
         "C02" => c02::run(&ctx),
         "C03" => c03::run(&ctx),
+        "C04" => c04::run(&ctx),
         "C05" => c05::run(&ctx),
+        "C09" => c09::run(&ctx),
         _ => {
             eprintln!("unknown property {prop}");
             2
